@@ -433,12 +433,13 @@ def run_scenario(chk, tool, model, rng, root, idx, stats):
             for nme in names[len(names) // 2:]:
                 os.remove(os.path.join(d, nme))
 
-    def viol(tag, what, extra=None, drift=False):
+    def viol(tag, what, extra=None, drift=False, finding_key=None):
         r = dict(desc)
         r['step'] = tag
         if extra:
             r.update(extra)
-        chk.violation('cmd_s%d_%s' % (idx, tag), ('MODEL-DRIFT: ' if drift else '') + 'scenario %d step %s: %s' % (idx, tag, what), r, no_input=drift)
+        chk.violation('cmd_s%d_%s' % (idx, tag), ('MODEL-DRIFT: ' if drift else '') + 'scenario %d step %s: %s' % (idx, tag, what), r, no_input=drift,
+                      finding_key=finding_key)
 
     def sync_and_verify(tag):
         nonlocal recorded
@@ -565,11 +566,33 @@ def run_scenario(chk, tool, model, rng, root, idx, stats):
                 pr = [parse_chsize_out(o) for o in run_lines(model, ln, shards=1)]
                 first_err = next((x for x in range(nlev) if pr[x]['kind'] == 'err'), None)
                 if first_err is None:
-                    # the damaged split is the last used one: with less room fix lays the parity out differently (and does not
-                    # record it: candidate finding, harness/py/c17_repro_fix_relayout.py); not driven here
-                    stats['fix_relayout_cases_skipped'] += 1
+                    # the damaged split is the last used one: with less room fix lays the parity out differently and does not record it
+                    # (known finding F-C17-fix-relayout-not-recorded, harness/py/c17_repro_fix_relayout.py).  Driven: fix must do what the
+                    # model says; if check then fails while the files hold the model's new layout, that is exactly the finding.
+                    stats['fix_relayout_cases'] += 1
+                    rc, out, lg = B.run(['fix'])
+                    stats['commands'] += 1
+                    want = [[x[0] for x in q['splits']] for q in pr]
+                    got = B.file_sizes()
+                    if rc != 0:
+                        B.limit = saved_limit
+                        viol('relayout_fix', 'fix under limit %d failed rc=%d although the model predicts the layout %s: %s' % (L2, rc, want, out[-300:]), dict(d, model_lines=ln), drift=True)
+                        return False
+                    rc2, out2, lg2 = B.run(['check'])
+                    stats['commands'] += 1
                     B.limit = saved_limit
-                    refuse = False
+                    if rc2 == 0:
+                        return True        # the layout was recorded or kept: nothing to report; the scenario ends here (limits differ)
+                    relaid = any(got[x] != recorded[x] for x in range(nlev))
+                    # fix may leave the tail of a re-laid split unwritten and cut (never longer than the model's size)
+                    as_model = all(len(got[x]) == len(want[x]) and all(g <= w for g, w in zip(got[x], want[x])) for x in range(nlev))
+                    if rc2 == 1 and relaid and as_model:
+                        viol('relayout_check', 'fix under limit %d laid the parity out as %s (recorded %s) and exited 0; the content file was not updated and check reports errors' %
+                             (L2, got, recorded), dict(d, model_lines=ln, fix_limit=L2, files_after_fix=got), finding_key='F-C17-fix-relayout-not-recorded')
+                    else:
+                        viol('relayout_check', 'check fails rc=%d after a fix under limit %d that left the files %s (recorded %s, model %s): %s' %
+                             (rc2, L2, got, recorded, want, out2[-300:]), dict(d, model_lines=ln, fix_limit=L2, files_after_fix=got))
+                    return False
             if refuse:
                 rc, out, lg = B.run(['fix'])
                 stats['commands'] += 1
@@ -629,11 +652,14 @@ def run_scenario(chk, tool, model, rng, root, idx, stats):
             stats['damage_level_checks'] += 1
         rc, out, lg = B.run(['check'])
         stats['commands'] += 1
-        if rc != 0 and cut_from and rc == 1:
-            # CANDIDATE FINDING (harness/py/c17_repro_fix_short.py): the cut part of the split held zeros; fix extended the file
-            # (zeros), found the parity equal, wrote nothing, and parity_truncate cut the file back to its damaged length
-            # (valid_size is not raised by growth): check keeps reporting a read error until the next sync regrows the file
+        zeros_missing = all(not any(twin[xx][lo:hi]) for xx, lo, hi in cut_from)
+        if rc == 1 and cut_from and zeros_missing and good:
+            # known finding F-C17-fix-leaves-short-split (harness/py/c17_repro_fix_short.py): the cut part of the split held zeros; fix
+            # extended the file (zeros), found the parity equal, wrote nothing, and parity_truncate cut the file back to its damaged
+            # length (valid_size is not raised by growth): check keeps reporting a read error until the next sync regrows the file
             stats['fix_left_short_file_check_fails'] += 1
+            viol('damage_recheck_short', 'fix of a %s split exited 0 but left the split file shorter than recorded (%s, recorded %s; the missing bytes are zeros) and check reports a read error' %
+                 (kind, B.file_sizes(), recorded), dict(d, files_after_fix=B.file_sizes()), finding_key='F-C17-fix-leaves-short-split')
         elif rc != 0:
             viol('damage_recheck', 'check fails (rc=%d) after fix of a %s split: %s' % (rc, kind, out[-300:]), d)
             good = False
@@ -923,10 +949,48 @@ def main(tier, replay=None):
                       (rb.get('sizes_after_sync1'), rb.get('sync2_rc'), rb.get('sizes_after_sync2'), rb.get('check2_rc'), rb.get('check2_tail')),
                       dict(rb, how='python3 harness/py/c17_repro_midzero.py'))
 
+    # ---- the two OPEN known findings of C17, driven deterministically on every run with exact attribution: the signature of the
+    #      finding goes through finding_key (KNOWN-FINDING line while the entry is open), any other failure of the same
+    #      scenario is a plain violation, and a tree where the finding is repaired passes silently
+    try:
+        import c17_repro_fix_relayout, c17_repro_fix_short
+        r1 = c17_repro_fix_relayout.reproduce(tool, os.path.join(scratch, 'relayout'))
+        chk.cov['finding_fix_relayout'] = r1
+        if r1['sync1_rc'] != 0 or r1['sizes_after_sync1'] != [8192, 0]:
+            chk.violation('relayout_setup', 'relayout scenario: first sync rc=%s sizes %s (expected 0, [8192, 0])' % (r1['sync1_rc'], r1['sizes_after_sync1']), r1)
+        elif r1['check_after_fix_rc'] != 0 and r1['fix_rc'] == 0:
+            if r1['check_after_fix_rc'] == 1 and r1['sizes_after_fix'] == [5120, 3072]:
+                chk.violation('relayout', 'fix re-lays out a lost last-used split under the limits of the moment without recording the new split sizes: recorded [8192, 0], '
+                              'fix --test-parity-limit=%d exits 0 with files %s, check then exits %d (%s)' % (r1['limit'], r1['sizes_after_fix'], r1['check_after_fix_rc'], r1['check_after_fix_tail']),
+                              dict(r1, how='python3 harness/py/c17_repro_fix_relayout.py'), finding_key='F-C17-fix-relayout-not-recorded')
+            else:
+                chk.violation('relayout_other', 'relayout scenario: fix exits 0 with files %s, check exits %d (%s)' % (r1['sizes_after_fix'], r1['check_after_fix_rc'], r1['check_after_fix_tail']),
+                              dict(r1, how='python3 harness/py/c17_repro_fix_relayout.py'))
+        if r1['sync1_rc'] == 0 and (r1['sync2_rc'] != 0 or r1['check_after_sync2_rc'] != 0 or sum(r1['sizes_after_sync2']) != 8192):
+            chk.violation('relayout_sync', 'relayout scenario: the sync after fix exits %s, files %s, check exits %s' % (r1['sync2_rc'], r1['sizes_after_sync2'], r1['check_after_sync2_rc']),
+                          dict(r1, how='python3 harness/py/c17_repro_fix_relayout.py'))
+        r2 = c17_repro_fix_short.reproduce(tool, os.path.join(scratch, 'short'))
+        chk.cov['finding_fix_short'] = r2
+        if r2['sync_rc'] != 0 or r2['p0_after_sync'] != 1024:
+            chk.violation('short_setup', 'short-split scenario: first sync rc=%s p0 has %s bytes (expected 0, 1024)' % (r2['sync_rc'], r2['p0_after_sync']), r2)
+        elif r2['check_rc'] != 0 or r2['fix_rc'] != 0:
+            if r2['fix_rc'] == 0 and r2['check_rc'] == 1 and r2['p0_after_fix'] == 500 and r2['fix2_rc'] == 0 and r2['p0_after_fix2'] == 500:
+                chk.violation('short', 'fix leaves a truncated split short when the missing bytes are zeros: p0 cut to 500 of 1024 bytes, fix exits 0 and p0 still has %d bytes, '
+                              'check exits %d (%s)' % (r2['p0_after_fix'], r2['check_rc'], r2['check_tail']),
+                              dict(r2, how='python3 harness/py/c17_repro_fix_short.py'), finding_key='F-C17-fix-leaves-short-split')
+            else:
+                chk.violation('short_other', 'short-split scenario: fix exits %s leaving p0 at %s bytes, check exits %s (%s)' % (r2['fix_rc'], r2['p0_after_fix'], r2['check_rc'], r2['check_tail']),
+                              dict(r2, how='python3 harness/py/c17_repro_fix_short.py'))
+        if r2['sync_rc'] == 0 and (r2['sync2_rc'] != 0 or r2['p0_after_sync2'] != 1024 or r2['check3_rc'] != 0):
+            chk.violation('short_sync', 'short-split scenario: the sync after fix exits %s, p0 has %s bytes, check exits %s' % (r2['sync2_rc'], r2['p0_after_sync2'], r2['check3_rc']),
+                          dict(r2, how='python3 harness/py/c17_repro_fix_short.py'))
+    except Exception as e:
+        chk.violation('findings_run', 'the scenarios of the open findings could not be run: %r' % e, {'error': repr(e)}, no_input=True)
+
     # ---- command level
     cstats = dict(commands=0, steps=0, level_checks=0, expected_failures=0, limit_hit_mid_growth=0, levels_spanning_several_splits=0,
                   dropped_split_cases=0, dropped_accepted=0, dropped_refused=0, skip_fallocate_scenarios=0, added_split_absent=0, added_split_prealloc_zero=0, added_split_prealloc_data=0, added_split_prealloc_misaligned=0,
-                  damage_delete=0, damage_empty=0, damage_cut_aligned=0, damage_cut_unaligned=0, damage_extend=0, damage_detected_by_check=0, restore_refused=0, fix_relayout_cases_skipped=0,
+                  damage_delete=0, damage_empty=0, damage_cut_aligned=0, damage_cut_unaligned=0, damage_extend=0, damage_detected_by_check=0, restore_refused=0, fix_relayout_cases=0,
                   damage_level_checks=0, fix_left_unwritten_tail_blocks=0, fix_left_short_file_check_fails=0, fix_restored_files=0, scenarios_completed=0)
     nscen = (30 if tier == 'quick' else 250) * (2 if broken else 1)
     descs = []
@@ -984,10 +1048,10 @@ def main(tier, replay=None):
                         'exercised by oracle only (no theorem): fix on a parity with a lost / cut / extended split (parity_create with st_size != recorded size, '
                         'parity_truncate), --test-skip-fallocate, splits added to the configuration (preallocated or not), refusal of misaligned preallocation and of a 9th split; '
                         'the chsize decisions inside these commands are predicted by the model (sizes and grow traces)',
-                        'CANDIDATE FINDING, not counted: when the LAST USED split is lost and has less room than recorded, fix lays the parity out over the next split, '
+                        'OPEN FINDING F-C17-fix-relayout-not-recorded (driven on every run, reported through finding_key): when the LAST USED split is lost and has less room than recorded, fix lays the parity out over the next split, '
                         'reports success and does not record the new sizes; check then reports errors until the next sync (harness/py/c17_repro_fix_relayout.py); '
-                        'such cases are counted as fix_relayout_cases_skipped',
-                        'CANDIDATE FINDING, not counted: a split cut inside a region whose parity bytes are zero is extended by fix, compared equal, not written, and cut '
+                        'random scenarios meeting it are counted as fix_relayout_cases and end there',
+                        'OPEN FINDING F-C17-fix-leaves-short-split (driven on every run, reported through finding_key): a split cut inside a region whose parity bytes are zero is extended by fix, compared equal, not written, and cut '
                         'again by parity_truncate (valid_size is not raised by growth): fix says OK, check keeps reporting a read error until the next sync '
                         '(harness/py/c17_repro_fix_short.py); counted as fix_left_short_file_check_fails',
                         'HYPOTHESIS of the flat-file oracle on ops histories = hypothesis wf of C17_split_concat: at every resize each split file has its recorded '
